@@ -396,9 +396,16 @@ func verifPostObject(r verifReal, attachments int) (object.Object, []verifMark) 
 		for i := 0; i < attachments; i++ {
 			t := fmt.Sprintf("https://t.example/att%d-%d", len(r.text), i+1)
 			name := fmt.Sprintf("A%d", i+1)
-			if i%2 == 0 {
+			switch variant := (len(r.text) + i*7) % 6; {
+			case variant == 5:
+				/* an attachment whose description cannot be read (a number where a string belongs) but whose
+				   address can: shown as an error, still counted - it carries its number, without a token */
+				list = append(list, map[string]any{"type": "Document", "url": t, "name": 5 + i})
+				expect = append(expect, verifMark{T: "lab", Target: t})
+				continue
+			case variant%2 == 0:
 				list = append(list, map[string]any{"type": "Link", "href": t, "name": name, "mediaType": "image/png"})
-			} else {
+			default:
 				list = append(list, map[string]any{"type": "Document", "url": t, "name": name})
 			}
 			expect = append(expect, verifMark{T: "tok", Id: name}, verifMark{T: "lab", Target: t})
@@ -442,7 +449,7 @@ func TestVerifMarkup(t *testing.T) {
 		for _, real := range verifRealise(rng, doc, di) {
 			attachments := 0
 			if di%3 == 0 {
-				attachments = 1 + rng.Intn(2)
+				attachments = 1 + rng.Intn(4)
 			}
 			o, expect := verifPostObject(real, attachments)
 			var post *Post
